@@ -129,6 +129,18 @@ class C16(DiffProperty):
         return hdr, ops
 
     def shrink_candidates(self, case):
+        if case.startswith("L "):
+            t = case.split()
+            names = t[1].split(",")
+            for k in range(len(names)):
+                if len(names) > 1:
+                    nn = names[:k] + names[k + 1:]
+                    st = min(int(t[2]), len(nn) - 1)
+                    yield "L %s %d %s %s" % (",".join(nn), st, t[3], t[4])
+            return
+        yield from self.shrink_ident(case)
+
+    def shrink_ident(self, case):
         hdr, ops = self.split(case)
         for k in range(len(ops)):
             yield self.join(hdr, ops[:k] + ops[k + 1:])
@@ -180,6 +192,12 @@ class C16(DiffProperty):
         return mx
 
     def classify(self, case):
+        if case.startswith("L "):
+            t = case.split()
+            return {"locate", "locate-pos%s" % ("+" if int(t[3]) > 0 else "0" if int(t[3]) == 0 else "-")}
+        return self.classify_ident(case)
+
+    def classify_ident(self, case):
         hdr, ops = self.split(case)
         mx = self.maxes(hdr)
         ln = [0] * len(mx)
@@ -340,7 +358,28 @@ class C16(DiffProperty):
             cases += self.pair_cases(rng, [17, 20, 28, 33, 100, 200, 255], 3)
         for i in range(2000 if quick else 60000):
             cases.append(self.history(rng, big=(i % 5 == 0)))
+        cases += self.locate_cases(rng, 1500 if quick else 30000)
         return cases
+
+    # node lookup by name (mpt_node_locate): names around the inline capacity of each node size
+    def locate_cases(self, rng, n):
+        out = []
+        lens = [1, 2, 3, 18, 19, 20, 21, 82, 83, 84, 85, 210, 211, 212, 213, 240, 260]
+        for i in range(n):
+            cnt = rng.choice([1, 2, 3, 4, 6])
+            base = rng.choice(lens)
+            pool = []
+            for k in range(rng.choice([1, 2, 3])):
+                ln = max(1, base + rng.choice([-1, 0, 0, 0, 1]))
+                pool.append("g%d.%d" % (ln, rng.randrange(1, 5)))
+            # near misses: same length, one byte altered
+            pool.append("g%d.%d.%d" % (base, 1, rng.randrange(0, base)))
+            names = [rng.choice(pool) for _ in range(cnt)]
+            key = rng.choice(pool + names)
+            start = rng.randrange(0, cnt)
+            pos = rng.choice([-3, -2, -1, -1, 0, 0, 1, 1, 2, 3])
+            out.append("L %s %d %d %s" % (",".join(names), start, pos, key))
+        return out
 
 
 PROP = C16()
